@@ -235,7 +235,7 @@ class C18(Check):
     level = 'model_checking'
     rule = ('host configurations = {real host} + {Darwin, FreeBSD-like, empty, sparse (Windows-like)} x {errno only, Signals only, socket only, all three} '
             '(17 configurations), installed by rebinding the names in pykdebugparser.trace_handlers.bsd inside the worker and '
-            'restored after each case. Inputs: every BSD decoder x END error word 0..255 and 9999; sigaction x signal 0..40; '
+            'restored after each case. Inputs: every BSD decoder x END error word 0..255 and 9999; every BSD decoder x every numeric START position x value 0..64 (a word that a new code path looks up in a host table shows here); sigaction x signal 0..40; '
             'socket/socketpair/socket_delegate x family 0..45 x type 0..7; get/setsockopt x level {0,1,6,0xffff} x every declared '
             'SO_ option + 2 undeclared. Oracle: the rendered text (or the exception type) is identical under every configuration. '
             'Plus a static scan of every import in pykdebugparser/** against the list of host-dependent stdlib modules: anything '
@@ -251,7 +251,7 @@ class C18(Check):
 
     def shards(self):
         names = [n for n in D.decoder_names() if n.startswith('BSC_')]
-        return [('errno', ch) for ch in chunked(names, 32)] + [('signal',), ('socket', 'BSC_socket'), ('socket', 'BSC_socketpair'),
+        return [('errno', ch) for ch in chunked(names, 32)] + [('small', ch) for ch in chunked(names, 32)] + [('signal',), ('socket', 'BSC_socket'), ('socket', 'BSC_socketpair'),
                                                                ('socket', 'BSC_socket_delegate'), ('sockopt', 'BSC_getsockopt'),
                                                                ('sockopt', 'BSC_setsockopt'), ('imports',)]
 
@@ -282,6 +282,26 @@ class C18(Check):
                     s = (0, 1) + s[2:]
                 for err in list(range(0, 256)) + [9999]:
                     self._compare(acc, name, s, (err, 0x55, 0x66, 0x77))
+        elif kind == 'small':
+            # any START word of any decoder may be run through a host table: every position x every small value
+            skip = {'BSC_sigaction': {0}, 'BSC_socket': {0, 1}, 'BSC_socketpair': {0, 1}, 'BSC_socket_delegate': {0, 1},
+                    'BSC_getsockopt': {1, 2}, 'BSC_setsockopt': {1, 2}}
+            for name in desc[1]:
+                base, _ = D.in_domain(name, 'se', BASE_S, (0, 0, 0, 0), 1)
+                en = D.enums(name, 'se')
+                for k in range(4):
+                    if k in skip.get(name, ()) or f's{k}' in en or (name == 'BSC_ioctl' and k == 1):
+                        continue     # positions already enumerated by their own sub-space / enum-valued (domain fixed)
+                    for v in range(0, 65):
+                        s = list(base)
+                        s[k] = v
+                        if name in ('BSC_socket', 'BSC_socketpair', 'BSC_socket_delegate'):
+                            s[0], s[1] = 2, 1
+                        if name == 'BSC_sigaction':
+                            s[0] = 2
+                        if name in ('BSC_getsockopt', 'BSC_setsockopt'):
+                            s[1] = 6
+                        self._compare(acc, name, tuple(s), (0, 0x55, 0x66, 0x77))
         elif kind == 'signal':
             for sig in range(0, 41):
                 self._compare(acc, 'BSC_sigaction', (sig, 0x2222, 0x3333, 0), (0, 0, 0, 0))
